@@ -221,3 +221,31 @@ Proof.
   - cbn [length]. lia.
   - rewrite Ha. apply sp_qfinal_mp11_inv; [exact Hwf|]. apply inv_init. exact Hwf.
 Qed.
+
+(* `runs` from the invariant between operations with stored events *)
+Lemma quietm2_runs : forall mc mk pend rn, quietm2 mk pend mc rn -> running rn = true -> runs mc rn.
+Proof.
+  intros mc mk pend rn (HokL & _ & _ & Har) Hr. apply runs_unfold. split; [exact Hr|]. specialize (Har Hr). intros s Hs.
+  destruct (s_sub (get_state mc s)) as [c|] eqn:Es; [|exact I].
+  destruct (okmL_kid mc rn s c HokL Es) as (kn & Ek & Hokk). rewrite Ek. apply okm_runs; [exact Hokk|].
+  destruct (In_nth _ _ 0 Hs) as (r & Hlt & Er). specialize (Har r Hlt). rewrite Er in Har. unfold kid_running in Har. rewrite Ek in Har. exact Har.
+Qed.
+
+Theorem mp11_flags_after_queue_history : forall cf, c_be cf = Mp11 -> forall parents, (forall e, nth e parents None = None) ->
+  mp11_entry_throw_resets = true -> forall root, core root -> m_hist root = HNone ->
+  forall l f, qbracketed false l -> ends_started false l = true -> 2 * count_enq l + depth root + 3 <= default_fuel ->
+  let rn' := final_rn cf root (build cf parents false root) default_fuel (init_rnode root) l in
+  let c' := fst (sp_qfinal_mp11 (c_pol cf) root (abs (init_rnode root), []) l) in
+  co_flag_or (build cf parents false root) rn' f = sp_flag_or root c' f /\
+  co_flag_and (build cf parents false root) rn' f = sp_flag_and_mp11 root c' f.
+Proof.
+  intros cf Hbe parents Hflat Hr root Hcore Hh l f Hb He Hf. cbn zeta.
+  destruct (mp11_qfinal cf Hbe parents Hflat Hr root Hcore Hh default_fuel ltac:(reflexivity) l (init_rnode root) None [] false Hb)
+    as ((mk' & Hq') & Hrun & Ha).
+  - apply quietm_nil. apply okm_init.
+  - destruct root; reflexivity.
+  - constructor.
+  - cbn [length]. lia.
+  - rewrite He in Hrun. pose proof (quietm2_runs root _ _ _ Hq' Hrun) as Hruns. rewrite <- Ha.
+    split; [apply mp11_flag_or_spec | apply mp11_flag_and_spec]; assumption.
+Qed.
